@@ -8,15 +8,19 @@
 //
 // Besides the computational set the reference executes CREATE (value 0 only),
 // SLOAD and SSTORE over its own world state, so that several hash-less initcodes
-// can run inside one call tree; and it knows the stack arity of every other
+// can run inside one call tree; CALL / CALLCODE / DELEGATECALL / STATICCALL
+// (value 0, ample gas) to the precompiles 2, 3, 4 and to accounts of its world,
+// with the EIP-211 return-data buffer (RETURNDATASIZE / RETURNDATACOPY); and it knows the stack arity of every other
 // Ethereum opcode up to Cancun, so that stack under/overflow is judged for them
 // too. Environment pushers (ADDRESS, ORIGIN, ..., GAS) push an opaque word: its
 // value is never judged, a run that consumes it is OutOfScope from there on.
 package evmref
 
 import (
+	"crypto/sha256"
 	"math/big"
 
+	"golang.org/x/crypto/ripemd160"
 	"golang.org/x/crypto/sha3"
 )
 
@@ -236,9 +240,9 @@ func init() {
 	other(0xf5, "CREATE2", 4, 1)
 	other(0xfa, "STATICCALL", 6, 1)
 	other(0xff, "SELFDESTRUCT", 1, 0)
-	for _, op := range []byte{0x54, 0x55, 0xf0} {
+	for _, op := range []byte{0x54, 0x55, 0xf0, 0x3d, 0x3e, 0xf1, 0xf2, 0xf4, 0xfa} {
 		o := ops[op]
-		o.impl = true
+		o.impl, o.opaque = true, false
 		ops[op] = o
 	}
 }
@@ -355,6 +359,8 @@ type machine struct {
 	data   []byte
 	self   Address
 	depth  int
+	static bool   // inside a STATICCALL: state changes halt exceptionally
+	ret    []byte // EIP-211 return-data buffer of this frame
 	stack  []*big.Int
 	mem    []byte
 	res    *Result
@@ -620,6 +626,8 @@ func (m *machine) exec() (Class, []byte) {
 				v = new(big.Int)
 			}
 			m.push(v)
+		case op == 0x55 && m.static:
+			return finish(Fail, "write-protection", nil)
 		case op == 0x55: // SSTORE
 			var k [32]byte
 			copy(k[:], Word32(m.pop()))
@@ -677,6 +685,112 @@ func (m *machine) exec() (Class, []byte) {
 			i, j := len(m.stack)-1, len(m.stack)-1-int(op-0x8f)
 			m.stack[i], m.stack[j] = m.stack[j], m.stack[i]
 
+		case op == 0x3d: // RETURNDATASIZE
+			m.push(big.NewInt(int64(len(m.ret))))
+		case op == 0x3e: // RETURNDATACOPY: reading past the end of the buffer halts exceptionally
+			dst, off, size := m.pop(), m.pop(), m.pop()
+			if m.run.tainted {
+				return finish(OutOfScope, "opaque operand", nil)
+			}
+			if h := m.touch(dst, size); h != nil {
+				return finish(h.class, h.reason, nil)
+			}
+			end := new(big.Int).Add(off, size)
+			if end.Cmp(big.NewInt(int64(len(m.ret)))) > 0 {
+				return finish(Fail, "return-data-out-of-bounds", nil)
+			}
+			if size.Sign() != 0 {
+				copy(m.mem[dst.Uint64():], m.ret[off.Uint64():end.Uint64()])
+			}
+
+		case op == 0xf1 || op == 0xf2 || op == 0xf4 || op == 0xfa: // CALL / CALLCODE / DELEGATECALL / STATICCALL
+			gas, addrW := m.pop(), m.pop()
+			value := new(big.Int)
+			if op == 0xf1 || op == 0xf2 {
+				value = m.pop()
+			}
+			inOff, inSize, outOff, outSize := m.pop(), m.pop(), m.pop(), m.pop()
+			if m.run.tainted {
+				return finish(OutOfScope, "opaque operand", nil)
+			}
+			if h := m.touch(inOff, inSize); h != nil {
+				return finish(h.class, h.reason, nil)
+			}
+			if h := m.touch(outOff, outSize); h != nil {
+				return finish(h.class, h.reason, nil)
+			}
+			if value.Sign() != 0 {
+				return finish(OutOfScope, "call with value", nil)
+			}
+			if gas.IsUint64() && gas.Uint64() < 10000000 {
+				return finish(OutOfScope, "call with a small gas operand", nil)
+			}
+			if m.depth >= 64 {
+				return finish(Gray, "call-depth", nil)
+			}
+			input := []byte{} // snapshot of the input area at call time
+			if inSize.Sign() != 0 {
+				input = append(input, m.mem[inOff.Uint64():inOff.Uint64()+inSize.Uint64()]...)
+			}
+			var target Address
+			copy(target[:], Word32(addrW)[12:])
+			low := true
+			for _, c := range target[:19] {
+				low = low && c == 0
+			}
+			var c Class
+			var out []byte
+			switch {
+			case low && target[19] == 2:
+				h := sha256.Sum256(input)
+				c, out = Success, h[:]
+			case low && target[19] == 3:
+				h := ripemd160.New()
+				h.Write(input)
+				c, out = Success, append(make([]byte, 12), h.Sum(nil)...)
+			case low && target[19] == 4:
+				c, out = Success, input
+			case low:
+				return finish(OutOfScope, "call to a low address", nil)
+			default:
+				var code []byte
+				if acc := m.run.world.Acc[target]; acc != nil {
+					code = acc.Code
+				}
+				if len(code) == 0 {
+					c = Success
+					break
+				}
+				snapshot := m.run.world.copy()
+				child := &machine{run: m.run, cfg: cfg, code: code, data: input, self: target, depth: m.depth + 1, static: m.static || op == 0xfa, res: res}
+				if op == 0xf2 || op == 0xf4 {
+					child.self = m.self
+				}
+				c, out = child.exec()
+				switch c {
+				case Success:
+				case Revert:
+					m.run.world.Acc = snapshot.Acc
+				case Fail:
+					res.FailedChildren++
+					m.run.world.Acc = snapshot.Acc
+					out = nil
+				default:
+					return finish(c, child.reason, nil)
+				}
+			}
+			m.ret = out
+			m.push(boolWord(c == Success))
+			if c != Fail && outSize.Sign() != 0 && len(out) > 0 {
+				n := outSize.Uint64()
+				if uint64(len(out)) < n {
+					n = uint64(len(out))
+				}
+				copy(m.mem[outOff.Uint64():outOff.Uint64()+n], out)
+			}
+
+		case op == 0xf0 && m.static:
+			return finish(Fail, "write-protection", nil)
 		case op == 0xf0: // CREATE
 			value, off, size := m.pop(), m.pop(), m.pop()
 			if m.run.tainted {
@@ -702,6 +816,7 @@ func (m *machine) exec() (Class, []byte) {
 			res.Created = append(res.Created, addr)
 			if ex := w.Acc[addr]; ex != nil && (ex.Nonce != 0 || len(ex.Code) != 0) {
 				res.FailedChildren++ // address collision: all gas passed on is lost
+				m.ret = nil
 				m.push(new(big.Int))
 				break
 			}
@@ -716,11 +831,14 @@ func (m *machine) exec() (Class, []byte) {
 					return finish(Gray, "code-size-above-eip170", nil)
 				}
 				w.get(addr).Code = ret
+				m.ret = nil
 				m.push(new(big.Int).SetBytes(addr[:]))
 			case Revert:
 				m.run.world.Acc = snapshot.Acc
+				m.ret = ret
 				m.push(new(big.Int))
 			case Fail:
+				m.ret = nil
 				res.FailedChildren++
 				m.run.world.Acc = snapshot.Acc
 				m.push(new(big.Int))
